@@ -242,6 +242,9 @@ def concrete(vals, **kw):
 def replay(data):
     common.install_common_stubs(common.named_render)
     _quiet()
+    if 'history' in data:
+        from . import histcheck
+        return histcheck.replay('C12', data)
     if data.get('kind') == 'names':
         return names_concrete(data['src'], data['dst']) != data['expected']
     out, ok, cr = concrete(data['vals'])
@@ -352,7 +355,7 @@ def check(rep):
         'branches.is_cascade_producer/is_cascade_consumer/branch_factory']
     rep.bounds = dict(spellings=SPELL, dependencies='0..2 after_pull_request comments over {open/merged/declined id, '
                                    'unknown id, non-numeric}', pr_status=PR_STATUS)
-    rep.outside_claim += ['positions of the hold inside a history (the step is history-free)',
+    rep.outside_claim += ['positions of the hold inside histories other than the ones listed under bounds.histories',
                           'what happens after clone_git_repo (other properties)',
                           'a non-numeric after_pull_request argument is ignored by the option '
                           'handler (not a dependency)']
@@ -381,3 +384,7 @@ def check(rep):
     if not any(r['bad'] is not None for _, r in tw):
         rep.error('reachability twin not refuted')
     names_part(rep)
+    # holds added and lifted along histories of complete jobs on the symbolic repository
+    from . import histcheck
+    histcheck.check(rep, 'C12')
+
